@@ -17,7 +17,8 @@
 From Coq Require Import List ZArith Bool.
 From ApiFu Require Import Base.Sexp Cost.CostModel Cost.CostSpec Cost.CostProofs.
 From ApiFu Require Val.Values Val.CoerceModel Val.CoerceSpec Val.CoerceProofs Relay.RelayModel.
-From ApiFu Require Import Cost.CostArgs Cost.CostArgsProofs Cost.CostFragments Cost.CostRelay Cost.CostTrace Cost.CostTraceProofs Cost.CostC04Usage Cost.CostC04.
+From ApiFu Require Import Cost.CostArgs Cost.CostArgsProofs Cost.CostFragments Cost.CostRelay Cost.CostTrace Cost.CostTraceProofs Cost.CostC04Usage Cost.CostC04 Cost.CostProj Cost.CostC04Proj.
+From ApiFu Require Val.BridgeC04Full Vld.TypeInfoPure ExeA.ArgData ExeA.ArgArgs Pipe.CostCompose Cost.CostRealDoc.
 From ApiFu Require Vld.ProofsTypeInfoValues.
 From ApiFu Require Vld.Ast Vld.ValidatorModel Vld.Hyps Vld.ProofsCommon Val.BridgeC04 Val.BridgeC04Proofs.
 Import ListNotations.
@@ -368,7 +369,9 @@ Theorem C14_trace_is_the_walk : forall (C : Type) E dt skip_zero fuel dc ctx0 op
 Proof. exact trace_outcome. Qed.
 
 (** every call, for every document (valid or not), every variables, every cost functions: it is the
-    call of a field selection of the chosen operation or of a fragment of the document, on exactly
+    call of a field selection of a node REACHED from the chosen operation ([reached]: its body, the
+    definitions of the fragments spread inside reached nodes — not fragments only other operations
+    use, whose variables the chosen operation need not declare), on exactly
     the map C05's CoerceArgumentValues returned for that selection under the coerced variables of
     the chosen operation (and the cost function answered) *)
 Theorem C14_every_cost_call_is_coerced : forall (C : Type) E dt skip_zero fuel dc ctx0 ops frs opname raw max c,
@@ -376,7 +379,7 @@ Theorem C14_every_cost_call_is_coerced : forall (C : Type) E dt skip_zero fuel d
   exists o vv,
     chosen_op C ops opname = Some o /\
     CoerceModel.coerce_variable_values CoerceModel.all_fixed E dt (ao_vardefs o) raw = Values.Ok vv /\
-    (field_in C (ao_body o) (c_field c) \/ exists p, In p frs /\ field_in C (snd p) (c_field c)) /\
+    (exists m, reached C frs (ao_body o) m /\ field_in C m (c_field c)) /\
     CoerceModel.coerce_argument_values CoerceModel.all_fixed E dt (af_argdefs (c_field c)) (af_args (c_field c)) vv
     = Values.Ok (c_args c) /\
     exists g, af_cost (c_field c) = Some g /\ g (c_ctx c) (c_args c) <> None.
@@ -390,7 +393,7 @@ Theorem C14_every_cost_call_conforms : forall (C : Type) E dt skip_zero fuel dc 
   chosen_op C ops opname = Some o ->
   CoerceSpec.env_ok E = true ->
   CoerceModel.has_dup (map Values.vd_name (ao_vardefs o)) = false -> CoerceProofs.request_ok (ao_vardefs o) raw ->
-  (forall f, field_in C (ao_body o) f \/ (exists p, In p frs /\ field_in C (snd p) f) ->
+  (forall f, (exists m, reached C frs (ao_body o) m /\ field_in C m f) ->
              CoerceModel.has_dup (map fst (af_argdefs f)) = false /\
              (forall ad, In ad (af_argdefs f) -> CoerceSpec.default_ok E (snd ad) = true) /\
              field_usage_ok C E (ao_vardefs o) f = true) ->
@@ -555,6 +558,126 @@ Theorem C14_c04_nodes_cost_calls_all_partial :
         (map (fun p => match p with (k, l) => (k, CoerceSpec.abs_lit vv l) end) (af_args (c_field c))) = Some (c_args c).
 Proof. exact c04_nodes_cost_calls_all. Qed.
 
+
+(** * Round 6: behind C04's WHOLE ValidateDocument model, with C05's complete bridge
+    (C05_C04_accepts_implies_static_ok_r: every environment, DateTime / LongInt included, no leaf
+    hypothesis).
+
+    [projection_accepted C E dt defs f]: C04's ValidateDocument model ([validate_model_memo repaired]:
+    NewTypeInfo, the eight rule groups, the primary / secondary filter) accepts the single-field
+    PROJECTION of the request at the field selection [f] — the operation that declares exactly the
+    variables the argument literals of [f] mention and selects [f] alone (C05's [tr_request_doc] over
+    [tr_request_schema_r]).  If every projection of a multi-field request is accepted (and
+    validateCoercion accepts every variable default, variable names are distinct — what
+    [vardefs_loop] reports otherwise), every call a cost function receives during the walk of the
+    WHOLE request — fields at any depth, through fragments, under any multiplier — sees conforming,
+    reference-coerced arguments.  No hypothesis about C04's internals, about leaves or about the
+    environment beyond closedness is left.
+    STILL NOT PROVED — the one remaining gap, now a statement about C04's model alone (LOCALITY):
+    [validate_model repaired pi S F D = Done []] on the whole multi-field document implies that each
+    single-field projection is accepted (validateArguments / validateValues / validateVariables
+    judge a field selection's arguments by that selection, its definition and the variable
+    definitions alone), together with the translation of a multi-field document over the real
+    schema into these projections.  C05's membership argument ([args_rule_node], [vals_args],
+    [body_flat] in Val/BridgeC04Full.v) computes NewTypeInfo on ONE fixed document shape; doing it for
+    a recursive document is C04-side work of the size of that file.  The check evaluates
+    [projection_accepted] on the field selections of validated cases. *)
+Theorem C14_usage_ok_only_mentioned_variables : forall E defs (p : Values.vardef -> bool) l e ld,
+  (forall n, In n (CoerceModel.lit_vars l) -> forall d, bytes_eqb n (Values.vd_name d) = true -> p d = true) ->
+  CoerceModel.usage_ok CoerceModel.all_fixed E (filter p defs) l e ld = CoerceModel.usage_ok CoerceModel.all_fixed E defs l e ld.
+Proof. exact usage_ok_filter. Qed.
+
+Theorem C14_projections_cost_calls_partial :
+  forall (C : Type) E dt (ops : list (aop C)) frs opname raw o skip_zero fuel dc ctx0 max,
+  Values.ahas BridgeC04.n_Query E = false -> Values.ahas BridgeC04.n_Res E = false ->
+  CoerceSpec.env_closed E = true -> CoerceSpec.env_ok E = true ->
+  chosen_op C ops opname = Some o ->
+  (forall f, in_request C o frs f -> projection_accepted C E dt (ao_vardefs o) f = true) ->
+  (forall def dflt, In def (ao_vardefs o) -> Values.vd_default def = Some dflt ->
+                    CoerceSpec.sty_closed E (Values.vd_type def) = true /\
+                    BridgeC04.c04_accepts_r dt E dflt (Values.vd_type def) true = true) ->
+  CoerceModel.has_dup (map Values.vd_name (ao_vardefs o)) = false ->
+  (forall def, In def (ao_vardefs o) -> BridgeC04Full.leaf_name (Values.vd_type def) <> BridgeC04.n_Res) ->
+  (forall f, in_request C o frs f ->
+             (forall ad, In ad (af_argdefs f) -> CoerceSpec.sty_closed E (Values.in_type (snd ad)) = true) /\
+             CoerceModel.has_dup (map fst (af_argdefs f)) = false /\
+             forall ad, In ad (af_argdefs f) -> CoerceSpec.default_ok E (snd ad) = true) ->
+  (forall def dflt, In def (ao_vardefs o) -> Values.vd_default def = Some dflt -> CoerceModel.lit_vars dflt = []) ->
+  (forall p, In p raw -> CoerceSpec.jval_ok (snd p) = true) ->
+  forall c, In c (snd (validate_cost_trace C E dt skip_zero fuel dc ctx0 ops frs opname raw max)) ->
+    CoerceSpec.args_conform_b E (af_argdefs (c_field c)) (c_args c) = true /\
+    exists vv,
+      CoerceSpec.ref_variable_values E dt (ao_vardefs o) raw = Some vv /\
+      CoerceSpec.ref_argument_values E dt (af_argdefs (c_field c))
+        (map (fun p => match p with (k, l) => (k, CoerceSpec.abs_lit vv l) end) (af_args (c_field c))) = Some (c_args c).
+Proof. exact projections_cost_calls. Qed.
+
+
+(** ** round 6, the whole-document step on the REAL document (Cost/CostRealDoc.v).  C03's composition
+    (Pipe/CostCompose.v) derives the request the cost rule walks from C04's annotated document:
+    [c_ops ES A], [c_frs ES A] with [A = pti_doc qo VS F D] — the real schema [VS] (C04's encoding)
+    and [ES] (the executor-side encoding that has the argument definitions with their default
+    values), fields at any depth, inline fragments, named fragments.
+
+    For a document ACCEPTED by C04's [validate_model repaired]:
+    - every field selection of that request names each argument once (validateArguments is a flat map
+      over the nodes of the document, [InspectProofs.visit_nil_iff]; every field selection of the
+      request is a node of the document) — the first implication of [document_bridge], proved;
+    - every argument literal and every variable default of that request names each input-object
+      field once at every depth ([lit_nodup]): validateValues is a flat map over the values of the
+      document ([rule_values_eq]), every literal of the request is one of them, and a silent
+      validateCoercion has visited every nested object ([C14_coercion_silent_fields_named_once]; the
+      schema's scalars must not swallow list / object literals, [scalars_are_leaves], decidable by
+      [scalars_leavesb]) — the second implication, proved;
+    - hence every call a cost function receives during the walk is REFERENCE-COERCED — no bridge
+      hypothesis, no translation back into C04, any number of fields.
+    STILL NOT PROVED for the real document: the third implication (the variable-usage rule, needed
+    for type conformance of the argument maps): C04's [usage_errs] on the document's own values
+    against C05's [usage_ok] on [l_of_vld v] at the argument types of [ES] — it needs the agreement of
+    the two schema encodings ([Pipe.SchemaAgree.schemas_agree]) threaded through expected types and
+    default flags.  For the translation of the request back into C04 it is proved
+    ([C14_usage_from_c04]), and on projections the whole statement holds
+    ([C14_projections_cost_calls_partial]). *)
+Theorem C14_accepted_document_argument_names_unique : forall pi VS F ES D,
+  ProofsCommon.order_ok pi ->
+  ValidatorModel.validate_model ValidatorModel.repaired pi VS F D = Ast.Done [] ->
+  let Adoc := TypeInfoPure.pti_doc (ValidatorModel.q_unwrap_obj ValidatorModel.repaired) VS F D in
+  forall f,
+    (exists o, In o (CostCompose.c_ops ES Adoc) /\ field_in unit (ao_body o) f) \/
+    (exists p, In p (CostCompose.c_frs ES Adoc) /\ field_in unit (snd p) f) ->
+    CoerceSpec.dup_names (map fst (af_args f)) = false.
+Proof. exact CostRealDoc.accepted_document_argument_names_unique. Qed.
+
+Theorem C14_coercion_silent_fields_named_once : forall pi S, CostRealDoc.scalars_are_leaves S ->
+  forall v t a,
+  ValidatorModel.coercion ValidatorModel.repaired pi S v t a = ValidatorModel.VR [] ->
+  CoerceSpec.lit_nodup (CostCompose.l_of_vld v) = true.
+Proof. exact CostRealDoc.coercion_nil_nodup. Qed.
+
+Theorem C14_accepted_document_calls_reference_coerced :
+  forall pi VS F ES D opname raw o skip_zero fuel dc ctx0 max,
+  ProofsCommon.order_ok pi ->
+  CostRealDoc.scalars_are_leaves VS ->
+  ValidatorModel.validate_model ValidatorModel.repaired pi VS F D = Ast.Done [] ->
+  let Adoc := TypeInfoPure.pti_doc (ValidatorModel.q_unwrap_obj ValidatorModel.repaired) VS F D in
+  let E := ArgData.s_inputs ES in
+  let dt := ArgArgs.dt_oracle ES in
+  CoerceSpec.env_ok E = true ->
+  (forall p, In p raw -> CoerceSpec.jval_ok (snd p) = true) ->
+  chosen_op unit (CostCompose.c_ops ES Adoc) opname = Some o ->
+  forall c, In c (snd (validate_cost_trace unit E dt skip_zero fuel dc ctx0
+                         (CostCompose.c_ops ES Adoc) (CostCompose.c_frs ES Adoc) opname raw max)) ->
+    exists vv,
+      CoerceSpec.ref_variable_values E dt (ao_vardefs o) raw = Some vv /\
+      CoerceSpec.ref_argument_values E dt (af_argdefs (c_field c))
+        (map (fun p => match p with (k, l) => (k, CoerceSpec.abs_lit vv l) end) (af_args (c_field c)))
+      = Some (c_args c).
+Proof. exact CostRealDoc.accepted_document_calls_reference_coerced. Qed.
+
+Theorem C14_scalars_are_leaves_decidable : forall S,
+  CostRealDoc.scalars_leavesb S = true -> CostRealDoc.scalars_are_leaves S.
+Proof. exact CostRealDoc.scalars_leavesb_spec. Qed.
+
 Print Assumptions C14_checked_mul_spec.
 Print Assumptions C14_checked_add_spec.
 Print Assumptions C14_select_op_spec.
@@ -594,3 +717,9 @@ Print Assumptions C14_accepted_document_cost_calls_partial.
 Print Assumptions C14_c04_nodes_cost_calls_partial.
 Print Assumptions C14_usage_from_c04.
 Print Assumptions C14_c04_nodes_cost_calls_all_partial.
+Print Assumptions C14_usage_ok_only_mentioned_variables.
+Print Assumptions C14_projections_cost_calls_partial.
+Print Assumptions C14_accepted_document_argument_names_unique.
+Print Assumptions C14_coercion_silent_fields_named_once.
+Print Assumptions C14_accepted_document_calls_reference_coerced.
+Print Assumptions C14_scalars_are_leaves_decidable.
